@@ -160,10 +160,29 @@ Theorem C19_finished_file_header_clauses : forall b m0 ops m rs s cl,
 Proof. exact finished_file_header_clauses_variant_inputs. Qed.
 Print Assumptions C19_finished_file_header_clauses.
 
-(* without the parameter-set bound the list is different (a 65537-byte SPS makes clause 10 fail for H.264) *)
-Theorem C19_oversized_parameter_set_refuted : ~ header_clauses_claim.
-Proof. exact header_clauses_claim_refuted_big_sps. Qed.
-Print Assumptions C19_oversized_parameter_set_refuted.
+(* without the parameter-set bound the list used to be different (a 65537-byte SPS made clause 10 fail for
+   H.264: former theorem C19_oversized_parameter_set_refuted).  Since commit 3b9bdbd (finish returns an error
+   for parameter sets that do not fit avcC/hvcC's 16-bit length fields) a successful finish implies the bound,
+   and both statements hold without it *)
+Theorem C19_finished_file_header_clauses_exact_unconditional : forall b m0 ops m rs s,
+  build b [] = inl m0 -> run m0 ops = (m, rs) -> In (RStats s) rs ->
+  Forall op_payload_ok ops -> len (sink_of m) < 4294967296 ->
+  failed_C19_mux b ops (map class_of rs) (sink_of m) =
+  [3; 4; 7] ++
+  clause 10 (match effective_config (m_writer m) with CfgVp9 _ => false | _ => true end) ++
+  match cfg_audio b with Some a => clause 11 (dops_ok a) | None => [] end.
+Proof. exact finished_file_header_clauses_exact_unconditional. Qed.
+Print Assumptions C19_finished_file_header_clauses_exact_unconditional.
+
+Theorem C19_finished_file_header_clauses_unconditional : forall b m0 ops m rs s cl,
+  build b [] = inl m0 -> run m0 ops = (m, rs) -> In (RStats s) rs ->
+  Forall op_payload_ok ops -> len (sink_of m) < 4294967296 ->
+  In cl (failed_C19_mux b ops (map class_of rs) (sink_of m)) ->
+  cl = 3 \/ cl = 4 \/ cl = 7 \/
+  (cl = 10 /\ cfg_codec b = Vp9) \/
+  (cl = 11 /\ exists a, cfg_audio b = Some a /\ at_codec a = Opus /\ (at_channels a = 0 \/ 2 < at_channels a)).
+Proof. exact finished_file_header_clauses_unconditional. Qed.
+Print Assumptions C19_finished_file_header_clauses_unconditional.
 
 (* FRAGMENTED muxer, END TO END on the init segment: the exact list of header clauses that fail on
    the bytes [FragmentedMuxer::init_segment] returns, for every configuration: clauses 1 / 5 iff the
